@@ -1083,12 +1083,14 @@ IsTmActor(a) == a \in {"tm", "ctm"}
 C18Ev == lw.valid /\ W.ev = "C18Check"
 \* class secretSrc: the required source is a Secret (a kind the template's own target watch does not cover), and a
 \* neighbour template t0 already watches that kind
-SrcA == IF scen.row >= 0 /\ "class" \in DOMAIN scen /\ scen.class = "secretSrc" THEN "Secret/ns1/src-a" ELSE "ConfigMap/ns1/src-a"
+SrcA == IF scen.row >= 0 /\ "class" \in DOMAIN scen /\ scen.class = "secretSrc" THEN "Secret/ns1/src-a"
+        ELSE IF scen.row >= 0 /\ "class" \in DOMAIN scen /\ scen.class = "widgetSrc" THEN "Widget/ns1/src-a"   \* value read from .status.a
+        ELSE "ConfigMap/ns1/src-a"
 SrcB == "ConfigMap/ns1/src-b"
 OutK == "ConfigMap/ns1/out"
 Has(k) == k \in Keys /\ store[k].exists
 Field(k, f) == IF Has(k) /\ f \in DOMAIN store[k].data THEN store[k].data[f] ELSE "<none>"
-Renderable(c) == c \in {"ok", "ok2", "optionalFirst", "secretSrc"}
+Renderable(c) == c \in {"ok", "ok2", "optionalFirst", "secretSrc", "widgetSrc"}
 
 \* at quiescence the produced object equals the template rendered with the CURRENT values of its sources
 Inv_C18_OutputIsRender ==
